@@ -208,6 +208,17 @@ pub fn decorate(rng: &mut Rng, sc: &mut Scenario) {
     }
 }
 
+/// a sun event at a place whose solar time is close to the zone's clock (so that sunrise and sunset fall on the
+/// local day), now and then anywhere on the globe (the mapping itself must hold everywhere)
+fn sun_step(rng: &mut Rng, offset: i32) -> Step {
+    let (lat, lon) = if rng.chance(1, 5) {
+        (rng.range(-600000, 600000) as i32, rng.range(-1800000, 1800000) as i32)
+    } else {
+        (rng.range(-550000, 550000) as i32, (offset as i64 * 10000 / 240 + rng.range(-100000, 100000)).clamp(-1799000, 1799000) as i32)
+    };
+    Step::Sun { day: *rng.pick(&[0, 0, 0, 0, -1, 1, -2, 2, 7, -7]), event: rng.below(4) as u8, lat, lon }
+}
+
 pub fn scenario_around(rng: &mut Rng, tz: Tz, j: Jump) -> Scenario {
     let (ws, we) = j.window();
     let size = (we - ws).max(1);
@@ -227,7 +238,8 @@ pub fn scenario_around(rng: &mut Rng, tz: Tz, j: Jump) -> Scenario {
     let n_events = if rng.chance(1, 100) { rng.range(60, 150) } else { rng.range(2, 12) };
     let mut steps = vec![observe(rng, size)];
     for _ in 0..n_events {
-        let s = match rng.below(14) {
+        let s = match rng.below(15) {
+            14 => sun_step(rng, j.after),
             0 => Step::Goto { utc: if rng.chance(1, 4) { j.at - 1 - 60 * rng.range(0, 3) } else { j.at - rng.range(1, 60) }, nanos: 0 },
             1 => Step::Goto { utc: j.at, nanos: 0 },
             2 => Step::Goto { utc: j.at + 1, nanos: 0 },
@@ -277,6 +289,10 @@ fn quiet_steps(rng: &mut Rng) -> Vec<Step> {
     let n = rng.range(2, 8);
     let mut steps = vec![observe(rng, 3600)];
     for _ in 0..n {
+        if rng.chance(1, 10) {
+            let off = (rng.range(-12, 14) * 3600) as i32;
+            steps.push(sun_step(rng, off));
+        }
         steps.push(match rng.below(5) {
             0 | 1 => Step::FollowNextChange,
             2 => Step::Between(rng.below(1000) as u32),
